@@ -5,7 +5,9 @@ cd "$(dirname "$0")"
 export CARGO_NET_OFFLINE=true
 mkdir -p /var/tmp/optrs-verif-scratch
 python3 translate/tables.py lean || true
-[ -f translate/terms.py ] && (python3 translate/terms.py lean || true)
+python3 translate/terms.py lean || true
+python3 translate/uff.py lean || true
 (cd lean && lake build OptRs optrs-model) || true
 (cd harness && cargo build --quiet) || true
+cargo build --quiet --offline --bin optrs --manifest-path /repo/Cargo.toml --target-dir /var/tmp/optrs-verif-target/cli || true
 echo "setup done"
